@@ -7,7 +7,7 @@ program alone what an RFC-compliant client must see.
 program = {
   "status": "200 OK",
   "headers": [[name, value], ...],          application headers (not Content-Length)
-  "cl": None | int,                          declared Content-Length
+  "cl": None | int,                          declared Content-Length ("cl_name": spelling of the header name)
   "sr": "call" | "next" | "never",           when start_response is called
   "steps": [[op, arg], ...]                  op in write / yield / raise / wait / set / sleep
   "ret": "list" | "tuple" | "gen" | "iterlen" | "fw_seek" | "fw_noseek" | "fw_seek_noclose"
@@ -153,7 +153,7 @@ class Run:
         p = self.prog
         headers = [(k, v) for k, v in p.get("headers", [])]
         if p.get("cl") is not None:
-            headers.append(("Content-Length", str(p["cl"])))
+            headers.append((p.get("cl_name", "Content-Length"), str(p["cl"])))
         self.log.add("start_response", self.rid)
         first = p.get("first")
         if first:
